@@ -555,8 +555,25 @@ func (r *c16Runner) script() {
 					porder = seqproxyapi.Order_ORDER_ASC
 				}
 				t0 := time.Now()
-				resp, gerr := api.Search(ctx, &seqproxyapi.SearchRequest{Query: &seqproxyapi.SearchQuery{Query: "k0:a", From: timestamppb.New(time.UnixMilli(0)), To: timestamppb.New(time.UnixMilli(4102444800000))},
-					Size: int64(rq.Size), Offset: int64(rq.Offset), WithTotal: true, Order: porder})
+				// (the two unary handlers that return documents; which one is a function of the request)
+				type docsResponse interface {
+					GetDocs() []*seqproxyapi.Document
+					GetError() *seqproxyapi.Error
+					GetPartialResponse() bool
+				}
+				var resp docsResponse
+				var gerr error
+				pq := &seqproxyapi.SearchQuery{Query: "k0:a", From: timestamppb.New(time.UnixMilli(0)), To: timestamppb.New(time.UnixMilli(4102444800000))}
+				if (rq.Offset+rq.Size+rq.TimeoutMs)%2 == 0 {
+					var sr *seqproxyapi.SearchResponse
+					sr, gerr = api.Search(ctx, &seqproxyapi.SearchRequest{Query: pq, Size: int64(rq.Size), Offset: int64(rq.Offset), WithTotal: true, Order: porder})
+					resp = sr
+				} else {
+					var cr *seqproxyapi.ComplexSearchResponse
+					cr, gerr = api.ComplexSearch(ctx, &seqproxyapi.ComplexSearchRequest{Query: pq, Size: int64(rq.Size), Offset: int64(rq.Offset), WithTotal: true, Order: porder})
+					resp = cr
+					r.res.Probes["grpc_complex_search_requests"]++
+				}
 				late := time.Since(t0) >= time.Duration(rq.TimeoutMs)*time.Millisecond
 				r.res.Probes["grpc_search_requests"]++
 				if late {
